@@ -50,10 +50,45 @@ func constValuesReaching(v ssa.Value, seen map[ssa.Value]bool, out map[int64]boo
 		for _, e := range x.Edges {
 			constValuesReaching(e, seen, out)
 		}
+	case *ssa.Call:
+		// a helper of the repository that returns the value: every constant it can return
+		if callee := x.Call.StaticCallee(); callee != nil && len(callee.Blocks) > 0 {
+			helperConstResults(callee, 0, seen, out)
+		}
+	case *ssa.Extract:
+		if c, ok := x.Tuple.(*ssa.Call); ok {
+			if callee := c.Call.StaticCallee(); callee != nil && len(callee.Blocks) > 0 {
+				helperConstResults(callee, x.Index, seen, out)
+			}
+		}
+	case *ssa.UnOp:
+		if al, ok := x.X.(*ssa.Alloc); ok && x.Op == token.MUL && al.Referrers() != nil {
+			for _, ref := range *al.Referrers() {
+				if st, ok := ref.(*ssa.Store); ok && st.Addr == ssa.Value(al) {
+					constValuesReaching(st.Val, seen, out)
+				}
+			}
+		}
+	case *ssa.Convert:
+		constValuesReaching(x.X, seen, out)
+	case *ssa.ChangeType:
+		constValuesReaching(x.X, seen, out)
+	}
+}
+
+func helperConstResults(callee *ssa.Function, idx int, seen map[ssa.Value]bool, out map[int64]bool) {
+	if summaryProgram == nil || !summaryProgram.isRepoFunc(callee) {
+		return
+	}
+	for _, b := range callee.Blocks {
+		if ret, ok := b.Instrs[len(b.Instrs)-1].(*ssa.Return); ok && idx < len(ret.Results) {
+			constValuesReaching(ret.Results[idx], seen, out)
+		}
 	}
 }
 
 func checkC14(p *Program, r *Reporter) {
+	unitsRuleByName(p, r, "calcStatusCode", "LossItvls.StateAt")
 	r.Explanation = "Static analysis of structural necessary conditions of C14: (a) the BaseURL prefix the MPD generator writes is the prefix the request parser tests and strips; (b) every loss state the pattern parser can store has its own arm in the handler, with the documented effect (up: served, down: 404, slow: sleep then served, hang: sleep then 503); " +
 		"(c) the cycle arithmetic of traffic patterns and status-code patterns cannot divide by zero and the BaseURL index is bounded for every request (E3-A/B2), on top of the validated-field facts for cycle >= 1, rsq >= 0, code in 400..599; " +
 		"(d) the cycle-start instant handed to the timeline generator depends on the availability start time and the hit index on the start number; the hit test of one pattern does not use values carried over from the previous pattern of the same request. " +
@@ -101,11 +136,13 @@ func checkC14(p *Program, r *Reporter) {
 	produced := map[int64]bool{}
 	cli := p.mustFunc(r, pkgApp, "CreateLossItvls")
 	if cli != nil {
-		for _, b := range cli.Blocks {
-			for _, in := range b.Instrs {
-				if st, ok := in.(*ssa.Store); ok {
-					if f, ok := fieldOfAddr(st.Addr); ok && f == "app.LossItvl.state" {
-						constValuesReaching(st.Val, map[ssa.Value]bool{}, produced)
+		for _, cf := range cluster(cli) {
+			for _, b := range cf.Blocks {
+				for _, in := range b.Instrs {
+					if st, ok := in.(*ssa.Store); ok {
+						if f, ok := fieldOfAddr(st.Addr); ok && f == "app.LossItvl.state" {
+							constValuesReaching(st.Val, map[ssa.Value]bool{}, produced)
+						}
 					}
 				}
 			}
@@ -191,6 +228,9 @@ func checkC14(p *Program, r *Reporter) {
 	e.classB("E3-B", fns)
 	r.Rule("FIELD-FACT", "status-code pattern fields validated at parse time (cycle >= 1, rsq >= 0, code in 400..599)", 3)
 	buildFieldFacts(p, r, map[string]bool{"app.SegStatusCodes.Cycle": true, "app.SegStatusCodes.Rsq": true, "app.SegStatusCodes.Code": true})
+	if sa := p.mustFunc(r, pkgApp, "LossItvls.StateAt"); sa != nil {
+		wholeSecondRule(p, r, sa)
+	}
 	// (d) dependences in calcStatusCode
 	csc := p.mustFunc(r, pkgApp, "calcStatusCode")
 	fls := p.mustFunc(r, pkgApp, "findLastSegNr")
